@@ -85,3 +85,4 @@ pub mod conc;
 pub mod gc;
 pub mod status;
 pub mod strs;
+pub mod tytree;
